@@ -997,6 +997,21 @@ func (h *NtfnsHandler) asyncImport(walletId string) (finish bool, err error) {
 				return ErrImportingContinuable
 			}
 
+			// The rescan reads the node's chain, the follower may not have
+			// handled the node's latest reorganisation yet: only take blocks
+			// of the branch the follower is on (it rolls back by height).
+			synced, err := h.walletMgr.syncStore.SyncedBlock(dbtx, height)
+			if err != nil {
+				return err
+			}
+			if synced != nil && synced.Hash != header.BlockHash() {
+				logging.CPrint(logging.WARN, "chain reorganised ahead of the follower, rescan postponed",
+					logging.LogFormat{
+						"blockheight": height,
+					})
+				return ErrImportingContinuable
+			}
+
 			// insertTx
 			blockMeta := &txmgr.BlockMeta{
 				Hash:      header.BlockHash(),
